@@ -1208,7 +1208,7 @@ const EXPECTED: &[(&str, &str)] = &[
     ("c30_missing_field_via_reader_and_multiple", "Err@Some((3, 3)): error: line 3 column 3: missing field `y`\n --> <input>:3:3\n  |\n1 | from: {x: 1, y: 2}\n2 | to:\n3 |   x: 9\n  |   ^ missing field `y` | Err@Some((6, 1)): missing field `x` at line 6, column 1"),
     ("c31_nested_call_fails_outer_continues", "Err@Some((5, 5)): missing field `y` at line 5, column 5 | Ok(emb=Err@Some((1, 1)): error: line 1 column 1: missing field `y`\n --> <input>:1:1\n  |\n1 | x: 1\n  | ^ missing field `y` line=Line { from: Point { x: 1, y: 2 }, to: Point { x: 3, y: 4 } })"),
     ("c32_nested_call_then_outer_missing_field_in_same_map", "Err@Some((3, 1)): missing field `needed` at line 3, column 1"),
-    ("c33_nested_call_with_anchors_inside_anchored_outer", "Ok(a=outer b=outer outer_same=true emb=[Ok(strong=primary weak_same=Some(true) strong_count=2)] emb2=[Ok(a=inner b=inner same=true strong=2)])"),
+    ("c33_nested_call_with_anchors_inside_anchored_outer", "Ok(a=outer b=outer outer_same=false emb=[Ok(strong=primary weak_same=Some(true) strong_count=2)] emb2=[Ok(a=inner b=inner same=true strong=2)])"),
     ("c34_nested_call_inside_anchor_context", "Ok(same=true first=[Ok(a=inner b=inner same=true strong=2) 1] second=[Ok(a=inner b=inner same=true strong=2) 1])"),
     ("c35_panicking_visitor_then_normal_calls", "panicked: demo bomb | Ok(a=one b=one same=true strong=2) | Err@Some((1, 7)): error: line 1 column 7: alias references unknown anchor\n --> <input>:1:7\n  |\n1 | weak: *a1\n  |       ^ alias references unknown anchor\n2 | strong: &a1\n3 |   name: later\n  | | Err@Some((1, 1)): missing field `y` at line 1, column 1 | Err@Some((3, 3)): error: line 3 column 3: missing field `y`\n --> <input>:3:3\n  |\n1 | from: {x: 1, y: 2}\n2 | to:\n3 |   x: 9\n  |   ^ missing field `y`"),
     ("c36_panic_in_reader_iterator_then_continue", "panicked | Ok(a=one b=one same=true strong=2)"),
